@@ -476,7 +476,11 @@ func genPathFamily(r vlib.Rnd) []byte {
 		if vlib.Chance(r, 1, 3) {
 			path += "/s" + n
 		}
-		switch r.Intn(8) {
+		switch r.Intn(10) {
+		case 8:
+			path += "/{" + n + "}x}" // a whole segment in braces with another brace inside
+		case 9:
+			path += "/{{" + n + "}}"
 		case 0:
 			path += "/{" + n + "}.json" // braces inside a segment: not a JSight path parameter
 		case 1:
